@@ -177,11 +177,20 @@ func (g *gen) project(fn string, from *world.Key, class string, value uint64, op
 	for _, a := range snap.Allocations {
 		bas := []rec.M{}
 		cost := new(big.Int)
+		// a value above 2^62 can only be a wrapped uint64: reported to the property (C12), not as a harness limit
+		wrap := a.ChallengePool > 1<<62
+		uw := func(v uint64) int64 {
+			if v > 1<<62 {
+				wrap = true
+				return capInt
+			}
+			return p.u(v)
+		}
 		for _, b := range a.Blobbers {
 			c := new(big.Int).Mul(new(big.Int).SetUint64(b.WritePrice), big.NewInt(b.Size))
 			c.Div(c, big.NewInt(GB))
 			cost.Add(cost, c)
-			bas = append(bas, rec.M{"a": g.name(b.BlobberID), "size": p.kb(b.Size), "offer": p.u(b.Offer), "iv": p.u(b.ChallengeValue),
+			bas = append(bas, rec.M{"a": g.name(b.BlobberID), "size": p.kb(b.Size), "offer": p.u(b.Offer), "iv": uw(b.ChallengeValue),
 				"wprice": p.u(b.WritePrice), "rprice": p.u(b.ReadPrice), "used": b.UsedSize / KB})
 		}
 		owner := ""
@@ -193,7 +202,8 @@ func (g *gen) project(fn string, from *world.Key, class string, value uint64, op
 			exp = relT(a.Expiration)
 		}
 		allocs = append(allocs, rec.M{"a": g.name(a.ID), "present": a.Present, "ent": a.Enterprise, "owner": owner,
-			"cp_present": a.HasChallengePool, "cp": p.u(a.ChallengePool), "wp": p.u(a.WritePool), "exp": exp,
+			"cp_present": a.HasChallengePool, "cp": uw(a.ChallengePool), "wp": p.u(a.WritePool), "exp": exp, "wrap": wrap,
+			"ccap": p.u(cost.Uint64()/5 + uint64(len(a.Blobbers)) + 1),
 			"fin": a.Finalized, "canc": a.Canceled, "bas": bas, "cost": p.u(cost.Uint64()),
 			"mtc": p.u(a.MovedToChallenge), "mb": p.u(a.MovedBack), "nopen": len(a.OpenChallenges)})
 	}
